@@ -1,8 +1,15 @@
-CLAIM = ("Static-Huffman family (-lh4/5/6/7/x-, -lk7-), compositional: bit-reader refinement (inductive), canonical-tree construction "
-         "vs arithmetic codewords, table readers vs a reference parser of the format, one command of LZ77 from an arbitrary window, "
-         "block accounting, template parameters of the six instantiations.")
-ASSUMPTIONS = ["composition of the parts follows the code's own call structure (argument in DESIGN.md 4.1)",
-               "table readers and command decoding are run on the real template text, instantiated by the harness at small NUM_CODES / HISTORY_BITS where stated"]
+CLAIM = ("Static-Huffman family (-lh4/5/6/7/x-, -lk7-), compositional: bit-reader refinement (inductive); canonical-tree construction + walk "
+         "vs arithmetically computed canonical codewords; table readers vs a reference parser of the block-header format (same symbolic bits, "
+         "build_tree captured); distance / LHARK length decoding at the real parameters; one LZ77 command from an arbitrary window "
+         "(closed-form oracle for short copies, byte-at-a-time oracle for the whole length range); block accounting; parameters of the six "
+         "instantiations and the name table; init + read glue on serialised streams for -lh5-.")
+ASSUMPTIONS = ["composition of the parts follows the code's own call structure (argument in DESIGN.md 4.1): a stream is blocks; a block is a count, three tables, commands; "
+               "a command is one code-tree symbol plus, for copies, one offset-tree symbol and extra bits",
+               "table readers and command decoding run on the real template text lib/lh_new_decoder.c, instantiated by the harness at small NUM_CODES / HISTORY_BITS where stated in 'bounds'",
+               "cmd.step.*: byte-at-a-time LZ77 definition (each copy step appends the byte d+1 behind the current head); after every step the window contents are re-chosen "
+               "arbitrarily (over-approximation), the frame condition of output_byte is cmd.outbyte.*",
+               "tables.code*: the bit string is modelled as a sequence of fields (k-th read returns the k-th arbitrary field, widths compared with the reference's)",
+               "e2e.lh5.*: the post-init state with ARBITRARY window contents; e2e.init.lh5 shows the real init makes every window cell a space"]
 BITS = {"lib/bit_stream_reader.c": ["peek_bits", "read_bits", "read_bit"]}
 SPECSTUB = "peek_bits/read_bits/read_bit: the next n bits of a symbolic bit string, MSB first, -1 when fewer remain (refinement proved by bits.refine for n <= 25; the stub asserts n <= 25)"
 
